@@ -364,6 +364,24 @@ def is_time(pid):
                     ensures=[('is_time[k]<=>(t==v[k])', post)], modifies=[])
 
 
+def replay_is_time(obligation=None, model=None, meta=None):
+    """native run of the real TimerParam.is_time: stored times that differ from the simulation time by one ulp, 5e-7, 1e-4 or not at all"""
+    import numpy as np
+    from andes.core.param import TimerParam
+    p = TimerParam()
+    n = 0
+    for t in (2.0, 0.1, 30.0, 123.456):
+        stored = np.array([t, np.nextafter(t, 1e9), np.nextafter(t, -1e9), t + 5e-7, t - 5e-7, t + 1e-4, t * (1 + 1e-6), t])
+        p.v = stored
+        n += 1
+        got = np.asarray(p.is_time(t)).astype(bool).tolist()
+        want = (stored == t).tolist()
+        if got != want:
+            return {'confirmed': True, 'inputs': {'dae_t': t, 'stored times': stored.tolist()}, 'observed': 'is_time = %r, the times equal to dae_t are %r' % (got, want),
+                    'native_cmd': 'TimerParam.is_time(dae_t) with the listed stored times'}
+    return {'confirmed': False, 'tried': n}
+
+
 def model_switch_action(pid):
     """Model.switch_action: every timer with a callback has it called once with is_time(dae_t) of that same timer."""
     E = 'self.timer_params.$e'
@@ -721,7 +739,7 @@ def add_obligations(pack, tier, pid='C06'):
                 'np.argsort returns in-range indices that order the array ascending; np.where(mask)[0] returns the increasing in-range indices at '
                 'which the mask holds; np.append(a, b) is a followed by b (assumed numpy contracts)')
     items = [(store_switch_times_head(pid), None, replay_store_switch_times), (store_switch_times_tail(pid, True), None, replay_store_switch_times), (store_switch_times_tail(pid, False), WIT_F28, replay_store_switch_times),
-             (fn_tds.tds_init(pid),), (is_time(pid),), (model_switch_action(pid), None, replay_event_runs), (system_switch_action(pid), None, replay_event_runs),
+             (fn_tds.tds_init(pid),), (is_time(pid), None, replay_is_time), (model_switch_action(pid), None, replay_event_runs), (system_switch_action(pid), None, replay_event_runs),
              (toggle_u_switch(pid), None, replay_event_runs), (fault_apply(pid),), (fault_clear(pid),), (alter_field(pid), None, replay_alter_field)]
     run_contracts(pack, items)
 
